@@ -82,6 +82,29 @@ def _fake_token_urlsafe(nbytes=None):
     return "".join(out)
 
 
+import time as _time
+
+_REAL_TIME_FN = _time.time
+
+
+def _fake_time():
+    """time.time() of the harness clock (same counter as FakeDatetime.now)."""
+    _STATE["clock"] += 1
+    us = _STATE["clock"] * _STATE["clock_step_us"] + _STATE.get("clock_offset_us", 1)
+    return _STATE["clock_origin"] + us / 1e6
+
+
+class _TimeProxy:
+    """Stands in for the `time` module inside simulator modules: wall-clock readers come from the harness clock."""
+
+    def __getattr__(self, name):
+        if name == "time":
+            return _fake_time
+        if name == "time_ns":
+            return lambda: int(_fake_time() * 1e9)
+        return getattr(_time, name)
+
+
 def install():
     """Patch every primaite module that imported uuid4 / datetime by name, and the secrets module functions."""
     if _STATE["installed"]:
@@ -98,6 +121,13 @@ def install():
             mod.uuid4 = _fake_uuid4
         if d.get("datetime") is _REAL_DATETIME and name.startswith("primaite.simulator."):
             mod.datetime = FakeDatetime
+        if name.startswith("primaite.simulator."):
+            # wall-clock readers other than datetime.now (none in the present tree; a change that starts reading
+            # time.time() inside the simulation must not escape the harness clock)
+            if d.get("time") is _REAL_TIME_FN:
+                mod.time = _fake_time
+            elif d.get("time") is _time:
+                mod.time = _TimeProxy()
     _secrets.randbits = _fake_randbits
     _secrets.token_urlsafe = _fake_token_urlsafe
     _STATE["installed"] = True
